@@ -47,9 +47,14 @@ fn callee_body<const K: u8>(input: u32, p: &mut PlainParams, n: &mut u32) -> u32
 fn callee<const K: u8>(In(input): In<u32>, mut p: PlainParams, mut n: Local<u32>) -> u32 { callee_body::<K>(input, &mut p, &mut n) }
 fn callee_cmd<const K: u8>(In(input): In<u32>, mut p: PlainParams, mut n: Local<u32>) { callee_body::<K>(input, &mut p, &mut n); }
 
+fn callee_ps<const K: u8>(In(input): In<u32>, mut ps: ParamSet<(PlainParams,)>, mut n: Local<u32>) -> u32 { let mut p = ps.p0(); callee_body::<K>(input, &mut p, &mut n) }
+fn callee_cmd_ps<const K: u8>(In(input): In<u32>, mut ps: ParamSet<(PlainParams,)>, mut n: Local<u32>) { let mut p = ps.p0(); callee_body::<K>(input, &mut p, &mut n); }
+
 fn sysname_of<S: 'static>(_: &S, name: u8) -> SysName { SysName::new::<S>(name) }
 
 macro_rules! by_key { ($key:expr, |$f:ident| $body:expr) => { match $key % NKEYS { 0 => { let $f = callee::<0>; $body } 1 => { let $f = callee::<1>; $body } _ => { let $f = callee::<2>; $body } } }; }
+macro_rules! by_key_ps { ($key:expr, |$f:ident| $body:expr) => { match $key % NKEYS { 0 => { let $f = callee_ps::<0>; $body } 1 => { let $f = callee_ps::<1>; $body } _ => { let $f = callee_ps::<2>; $body } } }; }
+macro_rules! by_key_cmd_ps { ($key:expr, |$f:ident| $body:expr) => { match $key % NKEYS { 0 => { let $f = callee_cmd_ps::<0>; $body } 1 => { let $f = callee_cmd_ps::<1>; $body } _ => { let $f = callee_cmd_ps::<2>; $body } } }; }
 macro_rules! by_key_cmd { ($key:expr, |$f:ident| $body:expr) => { match $key % NKEYS { 0 => { let $f = callee_cmd::<0>; $body } 1 => { let $f = callee_cmd::<1>; $body } _ => { let $f = callee_cmd::<2>; $body } } }; }
 
 pub fn world_syscall(world: &mut World, kind: SysKind, key: u8, value: u32, u: u32)
@@ -92,7 +97,8 @@ pub fn spawn_sys(world: &mut World, k: u8, key: u8)
 {
     let k = k as usize % 4;
     if world.resource::<H>().sys[k].is_some() { return; }
-    let id = if k < 2 { by_key!(key, |f| spawn_system(world, f)) } else { by_key_cmd!(key, |f| spawn_system(world, f)) };
+    // slots 1 and 3 hold the `ParamSet` form of the callee
+    let id = match k { 0 => by_key!(key, |f| spawn_system(world, f)), 1 => by_key_ps!(key, |f| spawn_system(world, f)), 2 => by_key_cmd!(key, |f| spawn_system(world, f)), _ => by_key_cmd_ps!(key, |f| spawn_system(world, f)) };
     let mut h = world.resource_mut::<H>();
     h.sys[k] = Some(id);
     h.known.push(id.entity());
@@ -108,7 +114,7 @@ pub fn spawn_sys_rc(world: &mut World, k: u8, key: u8)
 {
     let k = k as usize % 4;
     if world.resource::<H>().sys[k].is_some() { return; }
-    let sig = if k < 2 { by_key!(key, |f| spawn_rc_system(world, f)) } else { by_key_cmd!(key, |f| spawn_rc_system(world, f)) };
+    let sig = match k { 0 => by_key!(key, |f| spawn_rc_system(world, f)), 1 => by_key_ps!(key, |f| spawn_rc_system(world, f)), 2 => by_key_cmd!(key, |f| spawn_rc_system(world, f)), _ => by_key_cmd_ps!(key, |f| spawn_rc_system(world, f)) };
     let mut h = world.resource_mut::<H>();
     h.sys[k] = Some(SysId::new(sig.entity()));
     h.known.push(sig.entity());
@@ -120,7 +126,7 @@ pub fn insert_sys(world: &mut World, k: u8, e: Entity, key: u8)
     let k = k as usize % 4;
     // one spawned system per entity (a second insert would replace the first one's component)
     if world.resource::<H>().sys[k].is_some() || world.get_entity(e).is_err() || world.resource::<H>().sys.iter().flatten().any(|s| s.entity() == e) { return; }
-    let ok = { let mut c = world.commands(); if k < 2 { by_key!(key, |f| c.insert_system(e, f)) } else { by_key_cmd!(key, |f| c.insert_system(e, f)) } };
+    let ok = { let mut c = world.commands(); match k { 0 => by_key!(key, |f| c.insert_system(e, f)), 1 => by_key_ps!(key, |f| c.insert_system(e, f)), 2 => by_key_cmd!(key, |f| c.insert_system(e, f)), _ => by_key_cmd_ps!(key, |f| c.insert_system(e, f)) } };
     world.flush();
     if ok.is_ok() { world.resource_mut::<H>().sys[k] = Some(SysId::new(e)); }
 }
